@@ -60,10 +60,11 @@ import (
 // against the state in the same way.
 func init() {
 	register(&Rule{
-		Name:  "DELTA-STATE",
-		IR:    "ast",
-		Props: []string{"C11", "C01"},
-		Floor: 7,
+		Name:    "DELTA-STATE",
+		IR:      "ast",
+		Props:   []string{"C11", "C01", "C31"}, // C31: references are feature IDs; their order-preserving delta coding is part of "consistent with the compact index"
+		FloorBy: map[string]int{"C31": 3},
+		Floor:   7,
 		Doc: "for every Marshal/Unmarshal pair of ingest/compact and encoding (method pairs as in CODEC-SYM with delegation followed, and package-level function pairs) that keeps loop-carried codec state " +
 			"(a local declared before the element loop and assigned from the current element inside it), both sides update the same state components from the same element fields under equivalent guards, " +
 			"and the state is taken from the absolute (input / fully decoded) element on both sides",
